@@ -19,6 +19,10 @@ type chainCase struct {
 	Want    []string
 	// Oracle returns a signature suffix and explanation when the property is violated
 	Oracle func(ref, sub JobResult) (string, string)
+	// Pre / PreCheck: optional history whose final state must satisfy the case's precondition; a failed
+	// precondition is an error of the harness (the case would be vacuous), never a violation
+	Pre      []BlockSpec
+	PreCheck func(pre JobResult) string
 }
 
 type caseReplay struct {
@@ -43,11 +47,18 @@ func obsBalances(r JobResult) map[string]*big.Int {
 	return out
 }
 
-func obsMap(r JobResult, key string) map[string]string {
-	out := map[string]string{}
+// obsRecords: node / application records by role -> field -> value.
+func obsRecords(r JobResult, key string) map[string]map[string]string {
+	out := map[string]map[string]string{}
 	m, _ := r.Obs[key].(map[string]interface{})
 	for k, v := range m {
-		out[k] = fmt.Sprint(v)
+		rec := map[string]string{}
+		if mm, ok := v.(map[string]interface{}); ok {
+			for f, x := range mm {
+				rec[f] = fmt.Sprint(x)
+			}
+		}
+		out[k] = rec
 	}
 	return out
 }
@@ -129,6 +140,19 @@ func runChainCases(c *ev.Ctx, spec string, cases []chainCase) {
 					complete = false
 					mu.Unlock()
 					continue
+				}
+				if cs.PreCheck != nil {
+					pc := cs
+					pc.Ref = cs.Pre
+					pre := getRef(pc)
+					if pre.Err != "" {
+						c.HarnessError(fmt.Sprintf("%s case %s: precondition job failed: %s", spec, cs.Name, pre.Err))
+						continue
+					}
+					if msg := cs.PreCheck(pre); msg != "" {
+						c.HarnessError(fmt.Sprintf("%s case %s: precondition not met: %s", spec, cs.Name, msg))
+						continue
+					}
 				}
 				ref := getRef(cs)
 				sub := p.Exec(Job{Env: cs.Env, Blocks: cs.Subject, Want: cs.Want})
